@@ -13,7 +13,8 @@ RULE = ('cases: grammar-generated address texts over every notation (station 0..
         'strings of length 1..7 with optional network; ethernet; @route suffixes; trailing newline; leading zeros / octal parts), the int / '
         'bytes / bytearray / (host, port) tuple / two-argument / typed constructors, each observed as (type, net, octets, addrLen, route, IP '
         'attributes, str(), _tuple() under both route_aware settings); str() re-parsed; pairs from a pool of equivalent spellings compared '
-        'with == both ways and by _tuple(); == against un-coerced arguments; pack/unpack_ip_addr; random and single-character-mutated '
+        'with == both ways and by _tuple(); every constructor x argument type (int / bytes / bytearray / hex text) x octet-string length 1..8 with the '
+        'last two octets on and next to 0xBAC0..0xBACF, observed and re-parsed from str(); == against un-coerced arguments; pack/unpack_ip_addr; random and single-character-mutated '
         'strings.  non-trivial = the implementation accepts the input, or the input is a mutated/random string of length >= 1, or a '
         'range-edge refusal; distinct by (operation, input).  direct: distinct constructor calls whose denotation the statement fixes '
         '(accepted with the denoted fields, or refused), plus distinct ordered pairs of pool objects compared with == / hash / dict.')
@@ -366,6 +367,36 @@ def valid_texts(rng, tier):
     return out
 
 
+TAILS = [0xBAC0, 0xBAC1, 0xBACF, 0xBAD0, 0xBABF, 0x0000, 0xFFFF]
+
+
+def mac_grid(rng, tier):
+    """octet strings of every length 1..8 whose last two octets sit on / next to the BACnet port range 0xBAC0..0xBACF
+    (the range __str__ tests before printing a dotted quad), plus plain random ones"""
+    tails = TAILS if tier != 'quick' else [0xBAC0, 0xBACF, 0xBAD0, 0x0000]
+    out = [bytes([v]) for v in (0x00, 0xC0, 0xBA, 0xFF)]
+    for l in range(2, 9):
+        for t in tails:
+            out.append(rnd_octets(rng, l - 2) + t.to_bytes(2, 'big'))
+        out.append(rnd_octets(rng, l))
+    return out
+
+
+def ctor_grid(mac, nets=(1, 65534)):
+    """every constructor x every argument type that denotes the station `mac` (locally and behind each of `nets`)"""
+    h = hexs(mac)
+    sp = [('A1', ('bytes', mac)), ('A1', ('bytearray', mac)), ('LS', ('bytes', mac)), ('LS', ('bytearray', mac)),
+          S('0x' + h), S("X'" + h.upper() + "'")]
+    if len(mac) == 1:
+        sp += [('A1', ('int', mac[0])), ('LS', ('int', mac[0])), S(str(mac[0]))]
+    for n in nets:
+        sp += [('RS', n, ('bytes', mac)), ('RS', n, ('bytearray', mac)), ('A2', n, ('bytes', mac)), ('A2', n, ('bytearray', mac)),
+               S('%d:0x%s' % (n, h)), S("%d:X'%s'" % (n, h)), ('A2', n, ('str', '0x' + h)), ('A2', n, ('str', "X'" + h + "'"))]
+        if len(mac) == 1:
+            sp += [('RS', n, ('int', mac[0])), ('A2', n, ('int', mac[0])), ('A2', n, ('str', str(mac[0]))), S('%d:%d' % (n, mac[0]))]
+    return sp
+
+
 def pool(rng, tier, lenient=True):
     """denoted addresses -> several spellings each (constructor specs); used for == / hash / dict membership.
     lenient=False leaves out the spellings the property statement does not list (leading zeros, trailing newline, ethernet)."""
@@ -373,7 +404,8 @@ def pool(rng, tier, lenient=True):
 
     def local(mac):
         h = hexs(mac)
-        sp = [S('0x' + h), S("X'" + h.upper() + "'"), ('A1', ('bytes', mac)), ('A1', ('bytearray', mac)), ('LS', ('bytes', mac))]
+        sp = [S('0x' + h), S("X'" + h.upper() + "'"), ('A1', ('bytes', mac)), ('A1', ('bytearray', mac)), ('LS', ('bytes', mac)),
+              ('LS', ('bytearray', mac))]
         if len(mac) == 1:
             sp += [S(str(mac[0])), ('A1', ('int', mac[0])), ('LS', ('int', mac[0]))]
             if lenient: sp.append(S('00' + str(mac[0])))
@@ -388,7 +420,8 @@ def pool(rng, tier, lenient=True):
 
     def remote(n, mac):
         h = hexs(mac)
-        sp = [S('%d:0x%s' % (n, h)), S("%d:X'%s'" % (n, h)), ('A2', n, ('bytes', mac)), ('RS', n, ('bytes', mac)), ('A2', n, ('str', '0x' + h))]
+        sp = [S('%d:0x%s' % (n, h)), S("%d:X'%s'" % (n, h)), ('A2', n, ('bytes', mac)), ('RS', n, ('bytes', mac)), ('A2', n, ('str', '0x' + h)),
+              ('A2', n, ('bytearray', mac)), ('RS', n, ('bytearray', mac))]
         if len(mac) == 1:
             sp += [S('%d:%d' % (n, mac[0])), ('A2', n, ('int', mac[0])), ('RS', n, ('int', mac[0])), ('A2', n, ('str', str(mac[0])))]
         if len(mac) == 6:
@@ -397,12 +430,13 @@ def pool(rng, tier, lenient=True):
         return sp
 
     macs = [b'\x00', b'\x05', b'\xff', b'\x05\x00', b'\x00\x05', b'\x01\x02\x03', bytes([1, 2, 3, 4, 0xba, 0xc0]), bytes([1, 2, 3, 4, 0xba, 0xc1]),
-            bytes([1, 2, 3, 5, 0xba, 0xc0]), bytes([1, 2, 3, 4, 0, 5]), bytes(range(7))]
+            bytes([1, 2, 3, 5, 0xba, 0xc0]), bytes([1, 2, 3, 4, 0, 5]), bytes(range(7)), bytes([9, 8, 7, 6]), bytes([9, 8, 7, 6, 5]),
+            bytes([1, 2, 3, 4, 5, 0xba, 0xc0]), bytes([1, 2, 3, 4, 0xba, 0xc0, 0xba, 0xc0]), bytes([0xba, 0xc0]), bytes([1, 0xba, 0xc1])]
     if tier != 'quick':
         macs += [rnd_octets(rng, rng.randrange(1, 8)) for _ in range(10)]
     for m in macs:
         P.append((('L', m), local(m)))
-        for n in ([0, 5, 65534] if len(m) in (1, 6) else [5]):
+        for n in ([0, 5, 65534] if len(m) in (1, 6, 7) else [5]):
             P.append((('R', n, m), remote(n, m)))
     P.append((('LB',), [S('*'), ('LB',)] + ([S('*\n')] if lenient else [])))
     P.append((('GB',), [S('*:*'), ('GB',)]))
@@ -434,6 +468,12 @@ def cases(rng, tier):
             out.append(case_addr(('A1', (rng.choice(['bytes', 'bytearray']), b)), 'bytes'))
             out.append(case_addr(('LS', ('bytes', b)), 'typed'))
             out.append(case_addr(('RS', rng.choice([0, 1, 65534]), ('bytearray', b)), 'typed'))
+    # every constructor x argument type x MAC length 1..8 x port-like tails: observed (incl. str()) and printed form re-parsed
+    for i, m in enumerate(mac_grid(rng, tier)):
+        for sp in ctor_grid(m, nets=(1, 65534) if tier != 'quick' else ((1, 65534)[i % 2],)):
+            out.append(case_addr(sp, 'mac-grid'))
+            if sp[0] != 'A1' or sp[1][0] != 'str' or tier != 'quick':
+                out.append(case_reparse(sp))
     for p in PORTS[:7]:
         b = bytes([192, 168, 1, 255, p >> 8, p & 255])
         out.append(case_addr(('A1', ('bytes', b)), 'bytes'))
@@ -669,6 +709,21 @@ def direct(rng, tier, focus=()):
         if why:
             fail('wrong-denotation', spec, why=why)
             return None
+        # every accepted address must be usable as a dict key next to an independently built equal one
+        _, ty, net, mac, _m = exp
+        try:
+            if ty in (2, 4) and mac:
+                ref = P.Address(('%d:' % net if net is not None else '') + '0x' + mac.hex())
+                if spec[0] == 'A1' and spec[1][0] == 'str' and spec[1][1] == str(ref):
+                    ref = P.RemoteStation(net, mac) if net is not None else P.LocalStation(mac)
+            else:
+                ref = {1: P.LocalBroadcast, 5: P.GlobalBroadcast}[ty]() if ty in (1, 5) else P.RemoteBroadcast(net)
+            if not (x == ref and ref == x) or hash(x) != hash(ref) or {ref: 1}.get(x) != 1 or {x: 1}.get(ref) != 1:
+                fail('not-interchangeable-with-equal-address', spec, ref=str(ref))
+                return None
+        except Exception as e:
+            fail('hash-raises', spec, exc=repr(e)[:120])
+            return None
         return x
 
     def check_print_parse(spec, x):
@@ -720,6 +775,8 @@ def direct(rng, tier, focus=()):
         for _ in range(10 if tier == 'quick' else 200):
             b = rnd_octets(rng, l)
             specs += [('A1', ('bytes', b)), ('A1', ('bytearray', b)), ('LS', ('bytes', b)), ('RS', 9, ('bytes', b)), ('A2', 9, ('bytes', b))]
+    for m in mac_grid(rng, 'thorough') + [rnd_octets(rng, rng.randrange(1, 9)) for _ in range(40 if tier == 'quick' else 2000)]:
+        specs += ctor_grid(m, nets=(0, 1, 65534))
     specs += [('LB',), ('GB',), ('A0',)]
     for d in focus:
         if isinstance(d, dict):
@@ -730,6 +787,21 @@ def direct(rng, tier, focus=()):
     for sp in specs:
         x = check_spec(sp)
         check_print_parse(sp, x)
+    # constructors must copy a caller's bytearray: changing the buffer afterwards must not change the address
+    for m in mac_grid(rng, 'quick'):
+        for cname, mk in (('Address', lambda b: P.Address(b)), ('LocalStation', lambda b: P.LocalStation(b)),
+                          ('RemoteStation', lambda b: P.RemoteStation(7, b)), ('Address2', lambda b: P.Address(7, b))):
+            n += 1
+            buf = bytearray(m)
+            try:
+                x = mk(buf)
+                before = (bytes(x.addrAddr), str(x))
+                buf[0] ^= 0xFF
+                buf.append(1)
+                if (bytes(x.addrAddr), str(x)) != before or x.addrLen != len(m):
+                    fail('aliases-caller-buffer', ('A1', ('bytearray', m)), ctor=cname, after=repr(x.addrAddr))
+            except Exception as e:
+                fail('bytearray-argument-raises', ('A1', ('bytearray', m)), ctor=cname, exc=repr(e)[:120])
     samples.append({'direct': 'denotation+refusal+print/parse', 'first_specs': [jspec(s) for s in specs[:3]], 'count': len(specs)})
 
     # D4 equality / hash over a pool of equivalent spellings
